@@ -15,6 +15,7 @@
 #define SPEC_IS_ED(a) ((a) == JWT_ALG_EDDSA)
 #define SPEC_IS_ASYM(a) (SPEC_IS_RS(a) || SPEC_IS_PS(a) || SPEC_IS_ES(a) || SPEC_IS_ED(a))
 #define SPEC_IS_SIGNING(a) (SPEC_IS_HS(a) || SPEC_IS_ASYM(a))
+#define SPEC_ALG_IN_ENUM(a) ((a) >= JWT_ALG_NONE && (a) <= JWT_ALG_INVAL)
 #define SPEC_ALG_KNOWN(a) ((a) >= JWT_ALG_NONE && (a) < JWT_ALG_INVAL)
 
 /* key family an algorithm may be evaluated with (property C02) */
